@@ -151,7 +151,7 @@ def stage_walk(ctx, st):
     if chosen["timed_out"] or chosen["groups_covered"] < chosen["groups_total"]:
         ctx.exhaustive = False
     for s in (chosen.get("samples") or [])[:2]:
-        ctx.samples.append(dict(stage=name, walk=vlib.trunc([dict(act=x["act"], observed=x.get("observed")) for x in s], 8)))
+        ctx.samples.append(dict(stage=name, walk=vlib.trunc([dict(act=x["act"], observed=x.get("observed")) for x in (s or [])], 8)))
     ctx.extra.setdefault("walk_stages", []).append(dict(
         stage=name, alternative=chosen["_alt"], module=st["module"], cfg=tier_val([a for a in alts if a["name"] == chosen["_alt"]][0]["cfg"], ctx.tier),
         graph_states=chosen["_gi"]["states"], graph_edges=chosen["_gi"]["edges"],
@@ -168,7 +168,7 @@ def stage_walk(ctx, st):
             p = ctx.new_replay_path(name)
             with open(p, "w") as fh:
                 json.dump(dict(property=ctx.prop, stage=name, module=st["module"], alternative=chosen["_alt"], kind="unlisted-deviation", deviation=dev,
-                               init=hit["init"], actions=[s["act"] for s in hit["prefix"]] + [hit["act"]], observed=hit["obs"]), fh, indent=1)
+                               init=hit["init"], actions=[s["act"] for s in hit["prefix"]] + [hit["act"]], observed=hit.get("observed")), fh, indent=1)
             ctx.violations.append(p)
     if not good:
         for d in results[0]["divergences"]:
